@@ -131,6 +131,26 @@ class LineScheduler:
                 self.current = r[0] if r else None
                 self.cv.notify_all()
 
+    def yield_to(self, me, target):
+        """Forced switch (not a preemption of the schedule): `me` cannot continue until `target` has made progress."""
+        with self.cv:
+            if self.current != me:
+                return
+            runnable = self._runnable()
+            if target not in runnable:
+                target = next((t for t in runnable if t != me), None)
+            if target is None:
+                self.stuck = "thread %d blocks on a lock nobody can release" % me
+                self.current = "released"
+                self.cv.notify_all()
+                return
+            self.forced_switches = getattr(self, "forced_switches", 0) + 1
+            self.state[me] = "waiting"
+            self.current = target
+            self.cv.notify_all()
+            self._wait_turn(me)
+            self.state[me] = "running"
+
     def _on_line(self, code, line):
         if not self.active:
             return
@@ -158,6 +178,64 @@ class LineScheduler:
                 self.state[idx] = "running"
 
 
+class SchedLock:
+    """Scheduler-aware stand-in for a real threading.Lock held by the code under test.  A participant that finds
+    the lock taken hands the baton to the owner instead of blocking the (single-runner) schedule; acquisition order
+    is therefore decided by the schedule, as with every other shared-state access."""
+
+    def __init__(self, sched):
+        self.sched = sched
+        self.owner = None
+        self._real = threading.RLock()
+
+    def acquire(self, blocking=True, timeout=-1):
+        s = self.sched
+        me = s.parts.get(threading.current_thread().ident)
+        if me is None or not s.active:
+            return self._real.acquire(blocking) if timeout == -1 else self._real.acquire(blocking, timeout)
+        spins = 0
+        while self.owner is not None and self.owner != me:
+            if not blocking:
+                return False
+            spins += 1
+            if spins > 10000 or s.current == "released":
+                raise Stuck("SchedLock never released")
+            s.yield_to(me, self.owner)
+        self.owner = me
+        return True
+
+    def release(self):
+        s = self.sched
+        me = s.parts.get(threading.current_thread().ident)
+        if me is None or not s.active:
+            try:
+                self._real.release()
+            except RuntimeError:
+                pass
+            return
+        self.owner = None
+
+    def locked(self):
+        return self.owner is not None
+
+    __enter__ = acquire
+
+    def __exit__(self, *a):
+        self.release()
+
+
+def model_locks(sched, *objs):
+    """Replace every threading.Lock / RLock attribute of the given objects by a SchedLock. Returns the names replaced."""
+    lock_types = (type(threading.Lock()), type(threading.RLock()))
+    done = []
+    for o in objs:
+        for name, v in list(vars(o).items()):
+            if isinstance(v, lock_types):
+                setattr(o, name, SchedLock(sched))
+                done.append("%s.%s" % (type(o).__name__, name))
+    return done
+
+
 def all_code_objects(*funcs):
     """code objects of the given functions including nested ones (co_consts)."""
     out = []
@@ -175,10 +253,13 @@ def all_code_objects(*funcs):
     return out
 
 
-def alternatives(trace):
-    """[(decision index, alternative thread)] for every decision with a choice."""
+def alternatives(trace, only=None):
+    """[(decision index, alternative thread)] for every decision with a choice (optionally only at the given
+    (function name, line) yield points)."""
     out = []
     for (d, cur, runnable, where) in trace:
+        if only is not None and tuple(where) not in only:
+            continue
         for t in runnable:
             if t != cur:
                 out.append((d, t))
